@@ -17,6 +17,9 @@ pub mod coset { use vstd::prelude::*; #[verifier::external_body] pub struct Cose
     pub type Result<T, E = CoseError> = core::result::Result<T, E>;
     // AsCborValue::from_cbor_value: a deterministic partial function of the value
     pub uninterp spec fn spec_cose_key(v: crate::Value) -> Option<CoseKey>;
+    // CborSerializable::to_vec: the CBOR encoding of the key; it cannot fail for a well-formed key (the source's SAFETY comment)
+    pub uninterp spec fn spec_cose_bytes(k: CoseKey) -> Seq<u8>;
+    impl CoseKey { #[verifier::external_body] pub fn to_vec(self) -> (r: Result<Vec<u8>>) ensures r matches Ok(v) && v@ == spec_cose_bytes(self) { unimplemented!() } }
     impl CoseKey { #[verifier::external_body] pub fn from_cbor_value(v: crate::Value) -> (r: Result<CoseKey>)
         ensures match spec_cose_key(v) { Some(k) => r matches Ok(x) && x == k, None => r is Err } { unimplemented!() } }
 }
@@ -50,8 +53,13 @@ use io_model::{Cursor, Read};
 // ---- ciborium::de::from_reader (trusted model): the decoder is a deterministic function of the unread bytes: either they
 //      start with one well-formed item of `n >= 1` bytes that deserialises to a `T` (then exactly those bytes are consumed and
 //      that value is returned) or the call fails.  Which byte strings are well-formed, and what they decode to, is not modelled.
-pub mod ciborium { pub mod de { use vstd::prelude::*; use crate::io_model::Read;
+pub mod ciborium { pub mod ser { use vstd::prelude::*;
+    // ciborium::ser::into_writer into a Vec: appends the CBOR encoding of the value; cannot fail for an in-memory writer
+    #[verifier::external_body] pub fn into_writer<T>(v: &T, w: &mut Vec<u8>) -> (r: Result<(), ()>)
+        ensures r is Ok, final(w)@ == old(w)@ + super::de::spec_cbor_bytes::<T>(*v) { unimplemented!() } }
+  pub mod de { use vstd::prelude::*; use crate::io_model::Read;
     pub enum Error<T> { Io(T), Syntax(usize) }
+    pub uninterp spec fn spec_cbor_bytes<T>(v: T) -> Seq<u8>;
     pub uninterp spec fn spec_cbor_len<T>(s: Seq<u8>) -> Option<int>;
     pub uninterp spec fn spec_cbor_val<T>(s: Seq<u8>) -> T;
     #[verifier::external_body]
@@ -71,6 +79,7 @@ impl<'a> VxIntoArr for &'a [u8] {
     #[verifier::external_body] fn vx_into_arr<const N: usize>(self) -> (r: [u8; N]) { self.try_into().unwrap() }
 }
 //@ include ../_common/bytes_prelude.rs
+//@ include ../_common/bytechain_prelude.rs
 #[derive(Clone, Copy)] pub struct Aaguid(pub [u8; 16]);
 pub uninterp spec fn spec_sha256(data: Seq<u8>) -> Seq<u8>;
 #[verifier::external_body] pub fn sha256(data: &[u8]) -> (r: [u8; 32]) ensures r@ == spec_sha256(data@) { unimplemented!() }
@@ -103,6 +112,11 @@ pub proof fn lemma_flag_consts()
     assert forall|i: u8| 0 <= i < 8 implies #[trigger] bit(64u8, i) == (i == 6) by { assert(i < 8 ==> ((64u8 >> i) & 1 == 1 <==> i == 6)) by(bit_vector); }
     assert forall|i: u8| 0 <= i < 8 implies #[trigger] bit(128u8, i) == (i == 7) by { assert(i < 8 ==> ((128u8 >> i) & 1 == 1 <==> i == 7)) by(bit_vector); }
 }
+impl vstd::std_specs::convert::FromSpecImpl<Flags> for u8 {
+    open spec fn obeys_from_spec() -> bool { true }
+    open spec fn from_spec(f: Flags) -> u8 { f.bits }
+}
+//@ extract flags impl From<Flags> for u8
 //@ extract flags impl Default for Flags
 pub enum Ctap2Error { CborUnexpectedType, Other }
 pub mod make_credential {
@@ -125,17 +139,20 @@ pub mod get_assertion {
 //@   pubfields
 impl AuthenticatorData { pub open spec fn v_hash(&self) -> [u8; 32] { self.rp_id_hash } }
 impl AttestedCredentialData { pub open spec fn v_id(&self) -> Vec<u8> { self.credential_id } }
+impl Clone for AttestedCredentialData { #[verifier::external_body] fn clone(&self) -> (r: Self) ensures r == *self { unimplemented!() } }
 //@ extract ad impl AuthenticatorData#0
 //@   rule R5
 //@ extract ad impl AttestedCredentialData#0
 // ---- decode side
 //@ extract ad fn io_error
 //@ extract ad impl AuthenticatorData#1
-//@   only from_slice
+//@   only from_slice to_vec
 //@   rule R18
 //@   rule R4d
+//@   rule R23
 //@ extract ad impl AttestedCredentialData#1
-//@   only from_reader
+//@   only from_reader into_iter
+//@   rule R23
 // a well-formed attested-credential section at the front of `s`: aaguid(16) || be16 length || id || one CBOR item that is a COSE key;
 // its total length
 pub open spec fn spec_acd_len(s: Seq<u8>) -> Option<int> {
@@ -150,11 +167,103 @@ pub open spec fn spec_acd_len(s: Seq<u8>) -> Option<int> {
         }
     }
 }
+// the layout of C12, as a spec function of the value
+pub open spec fn spec_acd_bytes(a: AttestedCredentialData) -> Seq<u8> {
+    a.aaguid.0@ + (a.credential_id@.len() as u16).vx_be() + a.credential_id@ + coset::spec_cose_bytes(a.key)
+}
+pub open spec fn spec_ad_layout(d: AuthenticatorData) -> Seq<u8> {
+    d.rp_id_hash@ + seq![if d.attested_credential_data is Some { d.flags.bits | 0x40u8 } else { d.flags.bits }]
+    + (match d.counter { Some(c) => c, None => 0u32 }).vx_be()
+    + (match d.attested_credential_data { Some(a) => spec_acd_bytes(a), None => Seq::empty() })
+    + (match d.extensions { Some(v) => ciborium::de::spec_cbor_bytes::<Value>(v), None => Seq::empty() })
+}
 // the reserved bits of the WebAuthn flags byte are 1 and 5 (0x22); every other bit is a named flag of the real `bitflags!`
 pub proof fn lemma_all_bits() ensures Flags::VX_ALL.bits == 0xddu8, forall|b: u8| (b & !0xddu8 == 0) <==> (b & 0x22u8 == 0)
 {
     assert(((1u8 << 0u8) | (1u8 << 2u8) | (1u8 << 3u8) | (1u8 << 4u8) | (1u8 << 6u8) | (1u8 << 7u8)) == 0xddu8) by(bit_vector);
     assert(forall|b: u8| (b & !0xddu8 == 0) <==> (b & 0x22u8 == 0)) by(bit_vector);
 }
+// ---- C12, last clause: "decoding those bytes returns an equal value".  A verified composition of the two real functions under
+//      their contracts, for every value whose sections agree with its flags (what the constructor and setters produce) -- relative
+//      to two trusted axioms: a CBOR item written by ciborium / coset is read back as the same value, consuming exactly its bytes.
+pub broadcast axiom fn axiom_cose_roundtrip(k: coset::CoseKey, rest: Seq<u8>)
+    ensures #![trigger ciborium::de::spec_cbor_len::<Value>(coset::spec_cose_bytes(k) + rest)]
+        ciborium::de::spec_cbor_len::<Value>(coset::spec_cose_bytes(k) + rest) == Some(coset::spec_cose_bytes(k).len() as int),
+        coset::spec_cose_key(ciborium::de::spec_cbor_val::<Value>(coset::spec_cose_bytes(k) + rest)) == Some(k),
+        coset::spec_cose_bytes(k).len() >= 1;
+pub broadcast axiom fn axiom_cbor_roundtrip(v: Value, rest: Seq<u8>)
+    ensures #![trigger ciborium::de::spec_cbor_len::<Value>(ciborium::de::spec_cbor_bytes::<Value>(v) + rest)]
+        ciborium::de::spec_cbor_len::<Value>(ciborium::de::spec_cbor_bytes::<Value>(v) + rest) == Some(ciborium::de::spec_cbor_bytes::<Value>(v).len() as int),
+        ciborium::de::spec_cbor_val::<Value>(ciborium::de::spec_cbor_bytes::<Value>(v) + rest) == v,
+        ciborium::de::spec_cbor_bytes::<Value>(v).len() >= 1;
+pub open spec fn sections_agree_with_flags(d: AuthenticatorData) -> bool {
+    &&& d.flags.bits & 0x22u8 == 0
+    &&& (d.flags.has(6) ==> d.attested_credential_data is Some)
+    &&& (d.flags.has(7) <==> d.extensions is Some)
+    &&& (d.attested_credential_data matches Some(a) ==> a.credential_id@.len() <= 65535)
+}
+pub fn vx_encode_then_decode(d: &AuthenticatorData) -> (r: coset::Result<AuthenticatorData>)
+    requires sections_agree_with_flags(*d),
+    ensures r matches Ok(x) && ({
+        &&& x.rp_id_hash@ == d.rp_id_hash@
+        &&& x.flags.bits == (if d.attested_credential_data is Some { d.flags.bits | 0x40u8 } else { d.flags.bits })
+        &&& x.counter == Some(match d.counter { Some(c) => c, None => 0u32 })
+        &&& (x.attested_credential_data is Some <==> d.attested_credential_data is Some)
+        &&& (d.attested_credential_data matches Some(a) ==> ({ let y = x.attested_credential_data.unwrap(); y.aaguid.0@ == a.aaguid.0@ && y.credential_id@ == a.credential_id@ && y.key == a.key }))
+        &&& x.extensions == d.extensions
+    }),
+{
+    let b = d.to_vec();
+    proof {
+        let hh = d.rp_id_hash@;
+        let fb = if d.attested_credential_data is Some { d.flags.bits | 0x40u8 } else { d.flags.bits };
+        let cnt = match d.counter { Some(c) => c, None => 0u32 };
+        let cc = cnt.vx_be();
+        let aa = match d.attested_credential_data { Some(a) => spec_acd_bytes(a), None => Seq::<u8>::empty() };
+        let ee = match d.extensions { Some(v) => ciborium::de::spec_cbor_bytes::<Value>(v), None => Seq::<u8>::empty() };
+        assert(b@ == hh + seq![fb] + cc + aa + ee);
+        assert(b@.subrange(0, 32) =~= hh);
+        assert(b@[32] == fb);
+        assert(b@.subrange(33, 37) =~= cc);
+        let rest = b@.subrange(37, b@.len() as int);
+        assert(rest =~= aa + ee);
+        // flag byte: no reserved bits, bit 6 / 7 follow the sections
+        let f0 = d.flags.bits;
+        assert(f0 & 0x22u8 == 0 ==> (f0 | 0x40u8) & 0x22u8 == 0) by(bit_vector);
+        assert(bit(f0 | 0x40u8, 6) && bit(f0 | 0x40u8, 7) == bit(f0, 7)) by(bit_vector);
+        assert((f0 & 0x22u8 == 0 && !bit(f0, 6) && !bit(f0, 7)) ==> f0 & 0xe2u8 == 0) by(bit_vector);
+        assert(bit(fb, 6) == (d.attested_credential_data is Some));
+        assert(bit(fb, 7) == (d.extensions is Some));
+        // big-endian counter read back
+        assert(spec_u32_from_be(cc) == cnt) by {
+            assert(cc[0] == (cnt / 0x1000000) as u8 && cc[1] == ((cnt / 0x10000) % 256) as u8 && cc[2] == ((cnt / 256) % 256) as u8 && cc[3] == (cnt % 256) as u8);
+        }
+        if let Some(v) = d.extensions {
+            axiom_cbor_roundtrip(v, Seq::<u8>::empty());
+            assert(ciborium::de::spec_cbor_bytes::<Value>(v) + Seq::<u8>::empty() =~= ciborium::de::spec_cbor_bytes::<Value>(v));
+            assert(ciborium::de::spec_cbor_len::<Value>(ee) == Some(ee.len() as int) && ciborium::de::spec_cbor_val::<Value>(ee) == v);
+        }
+        if let Some(a) = d.attested_credential_data {
+            let n = a.credential_id@.len() as int;
+            let ll = (n as u16).vx_be();
+            let kk = coset::spec_cose_bytes(a.key);
+            assert(aa == a.aaguid.0@ + ll + a.credential_id@ + kk);
+            assert(rest.subrange(0, 16) =~= a.aaguid.0@);
+            assert(rest.subrange(16, 18) =~= ll);
+            assert(spec_u16_from_be(ll) == n as u16) by { assert(ll[0] == ((n as u16) / 256) as u8 && ll[1] == ((n as u16) % 256) as u8); }
+            assert(rest.subrange(18, 18 + n) =~= a.credential_id@);
+            assert(rest.subrange(18 + n, rest.len() as int) =~= kk + ee);
+            axiom_cose_roundtrip(a.key, ee);
+            assert(spec_acd_len(rest) == Some(18 + n + kk.len()));
+            assert(rest.subrange(18 + n + kk.len(), rest.len() as int) =~= ee);
+        } else {
+            assert(rest =~= ee);
+            assert(rest.subrange(0, rest.len() as int) =~= ee);
+            assert(d.extensions is None ==> b@.len() == 37);
+        }
+    }
+    AuthenticatorData::from_slice(b.as_slice())
+}
 } // verus!
+impl core::fmt::Debug for coset::CoseError { fn fmt(&self, _f: &mut core::fmt::Formatter<'_>) -> core::fmt::Result { Ok(()) } }
 fn main() {}
